@@ -118,6 +118,10 @@ T_List == /\ Is("List") /\ UNCHANGED mvars /\ Keep
 StDrift == IF Ev.ev \in {"Add", "Remove", "Rename", "Flush"} /\ ~vskip' /\ Ev.st.has
               /\ (Ev.st.live # Cardinality(Present(vsess')) + vextra' \/ Ev.st.dirty # vdirty')
            THEN PrintT(<<"DRIFT", tl, "state">>) ELSE TRUE
+\* D: MutableArchive::read_file inside the session returns the session's view of the name (the
+\* property itself speaks about the state after close + reopen only)
+T_SRead == /\ Is("SRead") /\ UNCHANGED mvars /\ Keep
+           /\ IF vopen /\ Ev.res = "ok" /\ Ev.tok = vsess[Ev.n] THEN TRUE ELSE PrintT(<<"DRIFT", tl, "sessionread">>)
 T_Skip == ~Is("Reset") /\ UNCHANGED <<mvars, vreset, voptok, vskip, vhaslf>>
 
 TInit == tl = 1 /\ MapInit(<<>>, 0, 0) /\ vreset = 0 /\ voptok = <<>> /\ vskip = FALSE /\ vhaslf = FALSE
@@ -125,7 +129,7 @@ TNext == /\ tl <= Len(Rec)
          /\ tl' = tl + 1
          /\ IF vskip /\ ~Is("Reset") THEN T_Skip
             ELSE \/ T_Reset \/ T_Open \/ T_Add \/ T_Remove \/ T_Rename \/ T_Flush \/ T_Compact \/ T_Close
-                 \/ T_Check \/ T_Read \/ T_List
+                 \/ T_Check \/ T_Read \/ T_List \/ T_SRead
          /\ StDrift
 
 Accepted == LET d == TLCGet("stats").diameter IN
